@@ -1,3 +1,4 @@
+use rusty_linter::core::qb_divide;
 use rusty_variant::{Variant, VariantError};
 
 use crate::RuntimeError;
@@ -16,7 +17,11 @@ pub fn multiply<T: InterpreterTrait>(interpreter: &mut T) -> Result<(), RuntimeE
 }
 
 pub fn divide<T: InterpreterTrait>(interpreter: &mut T) -> Result<(), RuntimeError> {
-    reduce_a_b_into_a(interpreter, |a, b| a.divide(b))
+    let a = interpreter.registers().get_a();
+    let b = interpreter.registers().get_b();
+    let c = qb_divide(a, b)?;
+    interpreter.registers_mut().set_a(c);
+    Ok(())
 }
 
 pub fn modulo<T: InterpreterTrait>(interpreter: &mut T) -> Result<(), RuntimeError> {
